@@ -9,6 +9,10 @@ git checkout -q -- . ;
 log=/verif/seeded/$id/verify.log; : > $log
 git apply /tmp/seed/$id.demo && echo "[1] demo only:" >> $log && cargo test -p $crate --lib --offline -- "$filter" 2>&1 | grep -E "^test result|FAILED|panicked" | head -5 >> $log
 git apply /tmp/seed/$id.patch && echo "[2] patch + demo:" >> $log && cargo test -p $crate --lib --offline -- "$filter" 2>&1 | grep -E "^test result|FAILED|panicked" | head -5 >> $log
-git apply -R /tmp/seed/$id.demo && echo "[3] patch only, whole lib suite:" >> $log && cargo test -p $crate --lib --offline 2>&1 | grep -E "^test result|FAILED" | head -5 >> $log
+if [ "${LIGHT:-0}" = "1" ]; then
+  git apply -R /tmp/seed/$id.demo && echo "[3] patch only: compiles (whole-suite run with the patch is the seeding agent's, see meta.json):" >> $log && cargo test -p $crate --lib --offline --no-run 2>&1 | grep -E "^error|Finished" | head -3 >> $log
+else
+  git apply -R /tmp/seed/$id.demo && echo "[3] patch only, whole lib suite:" >> $log && cargo test -p $crate --lib --offline 2>&1 | grep -E "^test result|FAILED" | head -5 >> $log
+fi
 git checkout -q -- .
 echo done >> $log
